@@ -2,6 +2,26 @@
 # Regenerates MANIFEST.json from the table below (kept in one place so that it stays valid).
 import json
 checks = {
+ "C09": dict(
+   text="Bounded symbolic model checking of the real ABI type parser (Input.ABIType, parseArray, hasStatic, sizeof) with symbolic array-length digits, and of the real decoder (Result.Scan, scan, GetRow) against a reference ABI encoder and row rule over 18 type trees with all values symbolic; each decoder instance is used twice.",
+   note="Type trees and lengths are case-split (catalogue in harness/dig/common.go); values are solver-quantified. Reference encoder/row rule are mine (harness/dig/c09.go), compiled natively for replay. Overlapping/out-of-order tails and T[0] are outside.",
+   technique="go/ssa symbolic execution -> SMT (z3), differential against a reference encoder; native replay",
+   design="5/C09"),
+ "C10": dict(
+   text="Bounded symbolic model checking of Result.Scan/scan/bint.Decode on arbitrary log data: for each of 18 type trees and each data length up to the bound, all data bytes (and the bytes of stale capacity) are symbolic; z3 decides no-panic, values-inside-input, row-count bound and a 2-safety check that the outcome does not depend on bytes beyond len(data). Loop unwinding len/32+3 is checked, not assumed.",
+   note="Lengths/capacities case-split (quick <= 96 bytes, thorough <= 192), contents solver-quantified, so boundary words such as 2^63, 2^64-32, len-31 are inside the space. Longer inputs are outside the claim.",
+   technique="go/ssa symbolic execution -> SMT (z3) with unwinding checks; native replay",
+   design="5/C10"),
+ "C11": dict(
+   text="Bounded symbolic model checking of the real row builder (dig.New, setCols, processLog, logWithCtx.get, dbtype, Event.Selected) for all 64 indexed/selected layouts of a 3-input event: topics, data and block/tx/log fields are symbolic; every emitted cell is compared with the reference value (indexed inputs by their ordinal among ALL indexed inputs, data inputs by ABI position, typed per ABI type) and the ig_name/src_name stamp is checked.",
+   note="Layouts and leaf types case-split; values solver-quantified. Decimal rendering and pgx/Postgres COPY are outside; JSON->client mapping is C07/C14.",
+   technique="go/ssa symbolic execution -> SMT (z3); native replay",
+   design="5/C11"),
+ "C13": dict(
+   text="Bounded symbolic model checking of the decode gate in processLog (topic count and first topic vs stored signature hash, all topic bytes symbolic, topic counts 0..5) and of Event.Signature/Input.Signature against a reference renderer with a symbolic event name over 7 nested tuple/array shapes.",
+   note="Keccak-256 is trusted (computed natively by the engine on concrete input; one known-answer vector as smoke test). Layouts/shapes case-split.",
+   technique="go/ssa symbolic execution -> SMT (z3); native replay",
+   design="5/C13"),
  "C17": dict(
    text="Bounded symbolic model checking of the real codec functions (eth.decode, Uint64/Byte/Bytes.UnmarshalJSON, Bytes.Write/MarshalJSON, DecodeHex/EncodeHex, encoding/hex from its own SSA, bint.Encode/Decode/size): every token of each length up to the bound is one symbolic byte array, z3 decides exactness, error and no-panic assertions for all contents; counterexamples are replayed natively with go test before being reported.",
    note="Bounds: token lengths listed in evidence.bounds (quick <=22/16 bytes, thorough <=40/70); lengths are case-split, contents solver-quantified. fmt's %x is modelled; allocator capacity rounding approximated. Nothing is claimed for longer inputs.",
@@ -10,7 +30,7 @@ checks = {
 }
 not_applicable = {
 }
-pending = ["C01","C02","C03","C04","C05","C06","C07","C08","C09","C10","C11","C12","C13","C14","C15","C16","C18","C19","C20"]
+pending = ["C01","C02","C03","C04","C05","C06","C07","C08","C12","C14","C15","C16","C18","C19","C20"]
 m = {
  "version": 1,
  "setup_cmd": "cd /verif/gosym && GOFLAGS=-mod=mod GOPROXY=off GOSUMDB=off GOTOOLCHAIN=local go build -o /verif/bin/gosym .",
